@@ -301,7 +301,7 @@ void OPNMIDIplay::realTime_ResetState()
         chan.lastlrpn = 0;
         chan.lastmrpn = 0;
         chan.nrpn = false;
-        if((m_synthMode & Mode_GS) != 0)// Reset custom drum channels on GS
+        if((m_synthMode & Mode_XG) == 0)// Reset custom drum channels on GS; GM has none (only XG ties them to the bank select, which stays)
             chan.is_xg_percussion = false;
         noteUpdateAll(uint16_t(ch), Upd_All);
         noteUpdateAll(uint16_t(ch), Upd_Off);
